@@ -42,6 +42,7 @@ type COp struct {
 	ReadAt    bool   `json:"readat,omitempty"`
 	WaitMs    int64  `json:"wait,omitempty"`
 	Val       int64  `json:"val,omitempty"`
+	Burst     int    `json:"burst,omitempty"` // setmax: this many further limit changes right behind the first
 	DiskFault string `json:"disk,omitempty"` // file backend: "squat" (a directory sits on the entry's name), "fsize" (write fails after DiskAt bytes, RLIMIT_FSIZE), "vanish" (file unlinked before get)
 	DiskAt    int    `json:"disk_at,omitempty"`
 }
@@ -270,7 +271,10 @@ func (w *cacheWorld) exec(a, i int, op COp) {
 		w.sim.WaitUntil("harness:wait", time.Now().Add(time.Duration(op.WaitMs)*time.Millisecond))
 	case "setmax":
 		e := w.begin(a, i, op)
-		_, err := config.UpdatePartialFromConfig(w.cfg, map[string]any{"cache": map[string]any{"max_cache_size": fmt.Sprintf("%dB", op.Val)}})
+		var err error
+		for k := 0; k <= op.Burst; k++ {
+			_, err = config.UpdatePartialFromConfig(w.cfg, map[string]any{"cache": map[string]any{"max_cache_size": fmt.Sprintf("%dB", op.Val+int64(op.Burst-k))}})
+		}
 		w.end(e, err)
 	case "setint":
 		e := w.begin(a, i, op)
@@ -994,6 +998,9 @@ func genCachePlan(r *rand.Rand, family string) *CachePlan {
 					case 1:
 						op.Kind = "setmax"
 						op.Val = []int64{5000, 40000, 120000, 1 << 40}[r.IntN(4)]
+						if family == "stress" && r.IntN(2) == 0 {
+							op.Burst = 2 + r.IntN(2) // several limit changes right behind one another
+						}
 					case 2:
 						op.Kind = "setint"
 						op.Val = []int64{1, 20, 500, 60000}[r.IntN(4)]
